@@ -93,7 +93,17 @@ def rule_bookkeeping(ctx):
     newaxis = ('call', ('name', 'Axis'), (VALUES, name), ())
     obj = ('call', ('name', '_interp_internal_maybe_sort'), (SELF, AXIS, P_('issorted')), ())
     ev = run(ctx, fi)
-    for p in ret_paths(ev):
+    from ..rules import alternatives
+
+    class _Case(object):
+        # one resolution of the conditional expressions of a returned value: the path with the variant as its value and the variant's tests as guards
+        def __init__(self, p, value, guards):
+            self.value, self.guards, self.node, self._p = value, tuple(p.guards) + tuple(guards), p.node, p
+
+        def calls(self, name=None):
+            return self._p.calls(name)
+    cases = [_Case(p, v_, g_) for p in ret_paths(ev) for v_, g_ in alternatives(strip(p.value), into_comps=False)]
+    for p in cases:
         v = strip(p.value)
         cons = v if (v[0] == 'call' and T.call_name(v) == '_constructor') else None
         if cons is None or T.call_receiver(cons) != obj:
@@ -143,7 +153,7 @@ def rule_bookkeeping(ctx):
             ctx.holds('R2', 'interp_axis N-d')
             ctx.holds('R3', 'left/right reach the N-d variant')
         else:
-            ctx.violated('R2', fi, 'newval = ' + T.show(newval)[:120], 'unrecognised interpolation variant', node=p.node)
+            ctx.undecide('R2', 'interp_axis: unrecognised interpolation variant newval = ' + T.show(newval)[:120])
     for k in ('left', 'right'):
         d = default_of(fi, k)
         if d != ('expr', 'np.nan'):
@@ -161,7 +171,7 @@ def rule_bookkeeping(ctx):
         e = calls[0]
         c = e.a
         recv = T.call_receiver(c)
-        alts = T.strip_phi(recv)
+        alts = T.value_alts(recv)
         if not any(x[0] == 'carried' for x in alts) or SELF not in alts:
             ctx.violated('R3', il, e.node, 'each dimension must be interpolated starting from the result of the previous one (obj = obj.interp_axis(...)); every iteration '
                          'restarts from %s, so only the last shared dimension ends up interpolated' % T.show(recv)[:60], node=e.node)
